@@ -243,6 +243,23 @@ func (t *QCPendingTree) insertOrphan(node *ProposalNode) error {
 		t.OrphanList.PushBack(node)
 		return nil
 	}
+	// first adopt EVERY orphan root that is a son of node: the walk below stops
+	// at the first place it finds for node, so further sons (and, when node
+	// itself hangs under another orphan, all of them) would stay detached
+	// although their parent is stored now
+	for sonPtr := t.OrphanList.Front(); sonPtr != nil; {
+		curPtr := sonPtr
+		sonPtr = sonPtr.Next()
+		n, ok := curPtr.Value.(*ProposalNode)
+		if !ok {
+			return errors.New("QCPendingTree::insertOrphan::element type invalid.")
+		}
+		if n.In.GetProposalView() > t.Root.In.GetProposalView() &&
+			bytes.Equal(n.In.GetParentProposalId(), node.In.GetProposalId()) {
+			node.Sons = append(node.Sons, n)
+			t.OrphanList.Remove(curPtr)
+		}
+	}
 	// 遍历整个Sli，查看是否能够挂上
 	ptr := t.OrphanList.Front()
 	for ptr != nil {
